@@ -25,7 +25,7 @@ class C02(object):
     exhaustive = {}
 
     def gen(self, rng, tier):
-        n_cases = 220 if tier == 'quick' else 6000
+        n_cases = 220 if tier == 'quick' else 40000
         for _ in range(n_cases):
             c = gen.rand_dist_case(rng, nmin=1, nmax=4)
             n = c['n']
